@@ -64,17 +64,21 @@ HANDLER = [["text", "!"], ["expr", ["probe"], []]]
 
 class Impl:
     """one compiled template set; options are switched per run (they are read at render time)"""
+    serial = 0
 
     def __init__(self, bodies):
         from mako.lookup import TemplateLookup
         self.bodies = bodies
         self.lk = TemplateLookup(cache_enabled=False)
         self.metas = []
+        # unique URIs per set: mako's ModuleInfo registry (used by the error page) is keyed by module id
+        Impl.serial += 1
+        prefix = "s%d_" % Impl.serial
         for i, b in enumerate(bodies):
-            src, anon = G.to_source(b)
-            self.lk.put_string("t%d.html" % i, src)
+            src, anon = G.to_source(b, prefix)
+            self.lk.put_string("%st%d.html" % (prefix, i), src)
             self.metas.append((src, anon))
-        self.ts = [self.lk.get_template("t%d.html" % i) for i in range(len(bodies))]
+        self.ts = [self.lk.get_template("%st%d.html" % (prefix, i)) for i in range(len(bodies))]
         # read the generated code now: mako's ModuleInfo registry is keyed by module id ("t1_html"), which
         # every template set shares
         self._codes = [t.code for t in self.ts]
@@ -202,7 +206,8 @@ def variants_for(bodies, stack, rng, limit):
     out = []
     for ti, p in cands:
         nb = copy.deepcopy(bodies)
-        nb[ti] = G.wrap_try(bodies[ti], p, HANDLER)
+        handler = HANDLER + ([["expr", ["loopindex"], []]] if G.loop_context_at(bodies[ti], p) else [])
+        nb[ti] = G.wrap_try(bodies[ti], p, handler)
         out.append((nb, {"template": ti, "path": list(p)}))
     return out
 
@@ -319,6 +324,13 @@ def report(ctx, site, bodies, k, mode, where, detail, stream):
             small = G.shrink_set(copy.deepcopy(bodies), fails, 150 if ctx.quick else 500)
         except Exception:      # noqa
             small = bodies
+    if small is not bodies:
+        try:
+            s2, d2, _, _ = check_case(Impl(small), small, k, mode)
+            if s2 == site:
+                detail = d2
+        except Exception:      # noqa
+            pass
     srcs = [G.to_source(b)[0] for b in small]
     case = {"input": "\n-----\n".join(srcs), "k": k, "handler": mode["name"], "bodies": small, "mode": mode}
     if site == "format-exceptions-render-context-buffer-replaced":
@@ -533,14 +545,14 @@ def knob_sets(ctx):
     """streams of generator settings (name, knobs, number of template sets quick/thorough)"""
     K = G.Knobs
     return [
-        ("mixed", K(), 45, 900),
+        ("mixed", K(), 45, 420),
         ("defs-and-calls", K(constructs={"text": 4, "expr": 6, "def": 5, "call": 5, "block": 2, "try": 2, "if": 1,
-                                         "texttag": 1, "ret": 0.3}, p_flag=0.5), 25, 500),
+                                         "texttag": 1, "ret": 0.3}, p_flag=0.5), 25, 220),
         ("loops", K(constructs={"text": 4, "expr": 6, "for": 5, "while": 2, "try": 3, "if": 2, "def": 2, "call": 2,
-                                "brk": 1, "cont": 0.6, "ret": 0.4, "block": 1}), 20, 400),
+                                "brk": 1, "cont": 0.6, "ret": 0.4, "block": 1}), 20, 180),
         ("includes", K(constructs={"text": 4, "expr": 5, "inc": 4, "def": 3, "call": 2, "try": 2, "for": 1,
-                                   "block": 1}, templates=(2, 3)), 15, 300),
-        ("deep", K(max_depth=6, budget=45, max_body=3), 10, 250),
+                                   "block": 1}, templates=(2, 3)), 15, 140),
+        ("deep", K(max_depth=6, budget=45, max_body=3), 10, 110),
     ]
 
 
